@@ -469,27 +469,6 @@ def cases(rng, thorough=False):
     for q_in, q_out in (("int8", "uint8"), ("uint8", "int8"), ("int16", "int8"), ("int8", "int16")):
         add(f"QUANTIZE {q_in}->{q_out}", single(rng, lambda b, x: b.quantize(x, q_out), dtype=q_in))
 
-    # constraint_alpha_valid (repair C16-20): LEAKY_RELU just inside / outside "alpha negative only for an int8 / uint8 IFM".
-    # On a tree without the repair the report has no such sentence: every one of these is documented (and placed) on the NPU.
-    def lrelu_alpha(alpha):
-        def f(b, x):
-            o = b.unary("LEAKY_RELU", x)
-            b.net.ops[-1].opts = ("LeakyReluOptions", dict(Alpha=alpha))
-            return o
-        return f
-    for alpha in (-0.5, 0.0, 0.5, -2.0):
-        for dt in ("int8", "uint8", "int16"):
-            add(f"LEAKY_RELU alpha={alpha} {dt}", single(rng, lrelu_alpha(alpha), dtype=dt, ifm=(1, 4, 4, 8)))
-
-    def lrelu_same_quant(alpha):        # equal IFM / OFM quantisation: the 16-bit operator with a positive alpha is kept as LRELU
-        def f(b, x):
-            o = lrelu_alpha(alpha)(b, x)
-            b.t(o).scales, b.t(o).zps = list(b.t(x).scales), list(b.t(x).zps)
-            return o
-        return f
-    for alpha in (-0.5, 0.5):
-        add(f"LEAKY_RELU alpha={alpha} int16 same quantisation", single(rng, lrelu_same_quant(alpha), dtype="int16", ifm=(1, 4, 4, 8)))
-
     def softmax_beta(beta):
         def f(b, x):
             o = b.unary("SOFTMAX", x)
